@@ -258,7 +258,7 @@ class Facts:
             return float(c["v"])
 
     def is_test_path(self, p):
-        return bool(re.search(r"(^|::)(tests?|test_fixture|cli)(::|$)", p))
+        return bool(re.search(r"(^|::|<|\s)(tests?|test_fixture|cli)(::|$)", p))
 
     def non_test_bodies(self):
         for b in self.bodies.values():
